@@ -48,6 +48,10 @@ pub mod ed25519;
 
 pub use secp256::backend::r1 as secp256r1;
 
+/// Verification hook (see `secp256::backend::verif_k1`).
+#[cfg(all(feature = "fuellabs_fuel_vm_verif", feature = "std"))]
+pub use secp256::backend::verif_k1;
+
 pub use secp256::{
     PublicKey,
     SecretKey,
